@@ -294,6 +294,9 @@ def gen_plan(seed, tier="quick", variant=None):
         ops += [{"t": 0.05, "op": "commit"}, {"op": "stop", "on": ["commit", 0], "delay": 0.0005},
                 {"op": rng.choice(["shutdown", "commit"]), "on": ["commit_result", 0]},
                 {"op": "start", "on": ["start_result", 0], "start": "earliest", "start_rel": 0}]
+        if rng.random() < 0.5:
+            # (and once more, at a position, should that run be ended at once as well)
+            ops.append({"op": "start", "on": ["start_result", 1], "start": "num", "start_rel": 1})
         faults = [{"api": 8, "node": None, "nth": 0, "act": "delay", "delay": 0.2}]
         proc = []
     if rng.random() < 0.05:
@@ -591,6 +594,19 @@ def _run(w, plan):
                 for i_, ss in enumerate(inc.sessions):
                     if ss["start_kind"] != "committed":
                         first = i_
+                    else:
+                        # ... and so is a start from the committed position that found nothing committed: the reset
+                        # policy chose the position
+                        nxt = inc.sessions[i_ + 1]["seq"] if i_ + 1 < len(inc.sessions) else float("inf")
+                        for e in cl.reqlog:
+                            if e["key"] == kwire.OFFSET_FETCH and e["pid"] == inc.pid and ss["seq"] <= e["logseq"] < nxt and e.get("resp_body") \
+                                    and e.get("delivered_seq") is not None:
+                                try:
+                                    p_ = e["resp_body"]["topics"][0]["partitions"][0]
+                                    if p_["error"] == 0 and p_["offset"] < 0:
+                                        first = i_
+                                except (KeyError, IndexError, TypeError):
+                                    pass
                 # ... and so is the reset policy firing (the broker answered out-of-range: what lay before is gone)
                 oor_seq = -1
                 for e in reversed(cl.served_fetches):
